@@ -152,6 +152,8 @@ class Tracker:
             # Advection
             if self.vertical_advection:
                 W = force.variables["w"]
+                if len(W) != len(Z):  # Dead particles have been removed since update
+                    W = state["w"]
                 Z += W * self.dt
 
             # Reflexive boundary conditions at surface
